@@ -416,18 +416,48 @@ fn huffman(r: &Report, thorough: bool) {
     for n in 1..=5usize {
         crate::engine::product(&vec![2usize; n], |d| vecs.push(d.iter().map(|&i| if i == 0 { 1 } else { u32::MAX }).collect()));
     }
+    // weights whose partial sums leave the u32 range (sums must be formed in a wider type): all multisets of 2..5 (6)
+    // weights over a menu around 2^30 .. 2^32-1, each with several script families because ties between equal subtree
+    // weights are broken by node hashes
+    let wbig: Vec<u32> = vec![1 << 30, (1u32 << 31) - 1, 1 << 31, 2_200_000_000, 3 << 30, 4_000_000_000, 4_200_000_000, u32::MAX];
+    let mut big: Vec<Vec<u32>> = Vec::new();
+    for n in 2..=(if thorough { 6 } else { 5 }) {
+        crate::engine::product(&vec![wbig.len(); n], |d| {
+            if d.windows(2).all(|x| x[0] <= x[1]) {
+                big.push(d.iter().map(|&i| wbig[i]).collect());
+            }
+        });
+    }
+    let families: u8 = if thorough { 24 } else { 6 };
+    r.set_extra("huffman_large_weight_multisets", json!(big.len()));
+    r.set_extra("huffman_script_families_for_large_weights", json!(families));
+    let mut jobs: Vec<(Vec<u32>, u8)> = vecs.iter().map(|w| (w.clone(), 0u8)).collect();
+    for w in &big {
+        for f in 1..=families {
+            jobs.push((w.clone(), f));
+        }
+    }
     r.set_extra("huffman_weight_vectors", json!(vecs.len()));
-    vecs.par_iter().for_each(|w| {
+    jobs.par_iter().for_each(|(w, family)| {
+        let family = *family;
         for dup in [false, true] {
-            if dup && w.len() < 2 {
+            if dup && (w.len() < 2 || family != 0) {
                 continue;
             }
             r.eval(1);
             r.state(1);
             r.trans(w.len() as u64 + 1);
-            let scripts: Vec<Script> = (0..w.len()).map(|i| Script::from(vec![0x51 + if dup && i == w.len() - 1 { 0 } else { i as u8 }, 0x75])).collect();
+            let scripts: Vec<Script> = (0..w.len())
+                .map(|i| {
+                    let mut b = vec![0x51 + if dup && i == w.len() - 1 { 0 } else { i as u8 }, 0x75];
+                    if family != 0 {
+                        b.extend_from_slice(&[0x01, family, 0x75]);
+                    }
+                    Script::from(b)
+                })
+                .collect();
             let input: Vec<(u32, Script)> = w.iter().cloned().zip(scripts.iter().cloned()).collect();
-            let case = || json!({"weights": w, "duplicate_script": dup});
+            let case = || json!({"weights": w, "duplicate_script": dup, "script_family": family});
             match guard(|| TaprootSpendInfo::with_huffman_tree(s, ik, input.clone())) {
                 Err(p) => r.violation("huffman/panic", case(), p),
                 Ok(Err(e)) => {
@@ -477,7 +507,7 @@ fn huffman(r: &Report, thorough: bool) {
                             }
                         }
                     }
-                    r.nontrivial(fnv(format!("h{:?}{}", w, dup).as_bytes()));
+                    r.nontrivial(fnv(format!("h{:?}{}{}", w, dup, family).as_bytes()));
                 }
             }
         }
@@ -500,7 +530,7 @@ pub fn run(r: &Report) {
          reference path, size/serialization/round trip, verification, and rejection under every single perturbation (other script, \
          version, parity, each sibling altered/dropped, sibling appended/swapped, other output / internal key); output key via an \
          independent secp path; key-pair tweak; (ii) chains of depth 126..130; (iii) Huffman: all weight vectors over {0,1,2,3,7}^n, n<=5(6), \
-         {1,MAX}^n, with and without a duplicate script. non-trivial = distinct accepted trees / weight vectors",
+         {1,MAX}^n, with and without a duplicate script, and all multisets of 2..5(6) weights over 8 values between 2^30 and 2^32-1 (partial sums beyond u32) x 6 (24) script families (hash tie-breaks). non-trivial = distinct accepted trees / weight vectors",
     );
     explore_builder(r, n_max);
     // (i) all depth sequences
